@@ -23,6 +23,17 @@ use ragc_core::{
 use std::io::{self, Write};
 use std::path::{Path, PathBuf};
 
+// Verification seam (compiled only with `--cfg ragc_verif`): inside a simulated run, what the
+// commands of this file print to standard output goes to the simulator's disk. Like `println!`,
+// a failed write panics.
+#[cfg(ragc_verif)]
+macro_rules! println {
+    ($($arg:tt)*) => {{
+        use std::io::Write as _;
+        writeln!(ragc_common::verif::stdout(), $($arg)*).expect("failed printing to stdout");
+    }};
+}
+
 #[derive(Parser, Debug)]
 #[command(name = "agc")]
 #[command(version, about = "Assembled Genomes Compressor", long_about = None)]
@@ -1160,9 +1171,18 @@ fn getset_command(
             decompressor.write_sample_fasta(sample_name, &temp_path)?;
         }
         // Write temp file to stdout
+        #[cfg(not(ragc_verif))]
         let contents = std::fs::read(&temp_path)?;
+        #[cfg(ragc_verif)]
+        let contents = ragc_common::verif::fs::read(&temp_path)?;
+        #[cfg(not(ragc_verif))]
         io::stdout().write_all(&contents)?;
+        #[cfg(ragc_verif)]
+        ragc_common::verif::stdout().write_all(&contents)?;
+        #[cfg(not(ragc_verif))]
         std::fs::remove_file(&temp_path)?;
+        #[cfg(ragc_verif)]
+        ragc_common::verif::fs::remove_file(&temp_path)?;
     }
 
     decompressor.close()?;
@@ -1180,7 +1200,10 @@ fn listset_command(archive: PathBuf, output: Option<PathBuf>) -> Result<()> {
     let samples = decompressor.list_samples();
 
     if let Some(output_path) = output {
+        #[cfg(not(ragc_verif))]
         let mut file = std::fs::File::create(output_path)?;
+        #[cfg(ragc_verif)]
+        let mut file = ragc_common::verif::File::create(output_path)?;
         for sample in samples {
             writeln!(file, "{sample}")?;
         }
@@ -1211,7 +1234,10 @@ fn listctg_command(archive: PathBuf, samples: Vec<String>, output: Option<PathBu
     }
 
     if let Some(output_path) = output {
+        #[cfg(not(ragc_verif))]
         let mut file = std::fs::File::create(output_path)?;
+        #[cfg(ragc_verif)]
+        let mut file = ragc_common::verif::File::create(output_path)?;
         for line in output_lines {
             writeln!(file, "{line}")?;
         }
@@ -1287,9 +1313,15 @@ fn getrange_command(
     };
 
     if let Some(output_path) = output {
+        #[cfg(not(ragc_verif))]
         std::fs::write(output_path, &output_data)?;
+        #[cfg(ragc_verif)]
+        ragc_common::verif::fs::write(output_path, &output_data)?;
     } else {
+        #[cfg(not(ragc_verif))]
         io::stdout().write_all(&output_data)?;
+        #[cfg(ragc_verif)]
+        ragc_common::verif::stdout().write_all(&output_data)?;
     }
 
     decompressor.close()?;
@@ -1345,4 +1377,83 @@ pub fn verif_create_archive(
         fallback_frac,
         false,
     )
+}
+
+/// Verification hooks (compiled only with `--cfg ragc_verif`): the command functions of this
+/// file, callable by an in-process simulator with every flag the command line offers.
+#[cfg(ragc_verif)]
+pub mod verif_cli {
+    use super::*;
+
+    #[allow(clippy::too_many_arguments)]
+    pub fn create(
+        output: PathBuf,
+        inputs: Vec<PathBuf>,
+        kmer_length: u32,
+        segment_size: u32,
+        min_match_len: u32,
+        pack_cardinality: u32,
+        compression_level: i32,
+        verbosity: u32,
+        adaptive: bool,
+        concatenated: bool,
+        threads: Option<usize>,
+        batch: bool,
+        queue_capacity_str: &str,
+        fallback_frac: f64,
+    ) -> Result<()> {
+        create_archive(
+            output,
+            inputs,
+            kmer_length,
+            segment_size,
+            min_match_len,
+            pack_cardinality,
+            compression_level,
+            verbosity,
+            adaptive,
+            concatenated,
+            threads,
+            batch,
+            queue_capacity_str,
+            fallback_frac,
+            false,
+        )
+    }
+
+    pub fn getset(
+        archive: PathBuf,
+        samples: Vec<String>,
+        prefix: Option<String>,
+        output: Option<PathBuf>,
+        verbosity: u32,
+    ) -> Result<()> {
+        getset_command(archive, samples, prefix, output, verbosity)
+    }
+
+    pub fn listset(archive: PathBuf, output: Option<PathBuf>) -> Result<()> {
+        listset_command(archive, output)
+    }
+
+    pub fn listctg(archive: PathBuf, samples: Vec<String>, output: Option<PathBuf>) -> Result<()> {
+        listctg_command(archive, samples, output)
+    }
+
+    #[allow(clippy::too_many_arguments)]
+    pub fn getrange(
+        archive: PathBuf,
+        sample: String,
+        contig: String,
+        start: usize,
+        end: Option<usize>,
+        output: Option<PathBuf>,
+        format: String,
+        verbosity: u32,
+    ) -> Result<()> {
+        getrange_command(archive, sample, contig, start, end, output, format, verbosity)
+    }
+
+    pub fn ctglen(archive: PathBuf, sample: String, contig: String) -> Result<()> {
+        ctglen_command(archive, sample, contig)
+    }
 }
